@@ -272,11 +272,12 @@ def r6_parent_counting(rule, root=None):
         push = any(str(x) == "%s.push(%s);" % (work, child) for x in kt)
         # conditions under which an iteration is skipped
         skips = set()
-        for cn in A.find(w["body"], "Continue"):
-            if any(n is cn for l in A.find(w["body"], "For") for n in A.walk(l)):
+        wb = A.value_view(w["body"])  # a named gate (`let pending = count..; if pending != 0`) is the gate
+        for cn in A.find(wb, "Continue"):
+            if any(n is cn for l in A.find(wb, "For") for n in A.walk(l)):
                 continue
-            cs = A.enclosing_conds(w["body"], cn) or []
-            for i_ in A.find(w["body"], "If"):
+            cs = A.enclosing_conds(wb, cn) or []
+            for i_ in A.find(wb, "If"):
                 if any(n is cn for n in A.walk(i_["then"])) and A.norm_cond(str(A.ftxt(A.strip(i_["cond"])))) in [A.norm_cond(x) for x in cs]:
                     for d_ in _disjuncts(i_["cond"]):
                         skips.add(A.norm_cond(d_))
@@ -295,17 +296,29 @@ def r6_parent_counting(rule, root=None):
     visited1 = [c_ for c_ in p1["skips"] if re.fullmatch(r"!\w+\.insert\(%s\)" % p1["node"], c_)]
     facts.append(("pass 1 visits each node once", bool(visited1)))
     P = p2["count"]
-    gate = [c_ for c_ in p2["skips"] if c_ in ("*%s.get(&%s).unwrap_or(&0)>0" % (P, p2["node"]), "%s.get(&%s).copied().unwrap_or(0)>0" % (P, p2["node"]), "%s[&%s]>0" % (P, p2["node"]))]
+    # the count is unsigned: `> 0` and `!= 0` are the same test
+    want_gate = ("*%s.get(&%s).unwrap_or(&0)>0" % (P, p2["node"]), "%s.get(&%s).copied().unwrap_or(0)>0" % (P, p2["node"]), "%s[&%s]>0" % (P, p2["node"]))
+    gate = [c_ for c_ in p2["skips"] if (c_[:-3] + ">0" if c_.endswith("!=0") else c_).replace("(", "").replace(")", "") in [g_.replace("(", "").replace(")", "") for g_ in want_gate]]
     once2 = [c_ for c_ in p2["skips"] if re.fullmatch(r"!\w+\.insert\(%s\)" % p2["node"], c_)]
     facts.append(("pass 2 emits a node only when no unemitted parent remains, and only once", bool(gate) and bool(once2) and p1["count"] == P))
     facts.append(("pass 2 releases one count per child edge of the emitted node", p2["push"]))
     t2 = A.ftxt(p2["loop"]["body"])
-    facts.append(("constants become immediates and are not emitted", t2.fmatch("letSlot::Reg($I)=mapping[&%s]else{continue;};" % p2["node"]) is not None))
+    # `let Slot::Reg(i) = mapping[&node] else { continue }` in any spelling (let-else, match, if-let)
+    regs = [v_ for v_ in A.variant_lets(p2["loop"]["body"], "Reg") if v_[2] == "Continue" and str(A.ftxt(A.strip(v_[1]))) == "mapping[&%s]" % p2["node"] and len(v_[0]) == 1]
+    facts.append(("constants become immediates and are not emitted", len(regs) == 1))
     t1 = A.ftxt(p1["loop"]["body"])
     m = t1.fmatch("let$I=slot_count;")
     facts.append(("every non-constant node gets a fresh SSA slot", m is not None and "(slot_count+=1);" in t1 and t1.fmatch("mapping.insert(%s,Slot::Reg($I))" % p1["node"], bind=m) is not None))
-    facts.append(("constants map to their own value", t1.fmatch("Op::Const($C)=>mapping.insert(%s,Slot::Immediate($C.0))" % p1["node"]) is not None))
-    mi = t2.fmatch("letSlot::Reg($I)=mapping[&%s]else{continue;};" % p2["node"])
+    own = False
+    for c_ in A.find(p1["loop"]["body"], "MethodCall"):
+        mm = re.fullmatch(r"mapping\.insert\(%s,Slot::Immediate\((\w+)\.0\)\)" % re.escape(p1["node"]), str(A.ftxt(c_)))
+        if mm:
+            for pat, scrut in A.enclosing_patterns(p1["loop"]["body"], c_) or []:
+                segs, subs = A.pat_variant(pat) if pat.get("k") == "PTupleStruct" else (None, None)
+                if segs and segs[-2:] == ["Op", "Const"] and subs and A.binding_name(subs[0]) == mm.group(1) and A.ident(A.strip(scrut)) == "op":
+                    own = True
+    facts.append(("constants map to their own value", own))
+    mi = {"$I": regs[0][0][0]} if len(regs) == 1 else None
     facts.append(("inputs read the index their variable was given", mi is not None and (t2.fmatch("Op::Input($V)=>{let$A=vars[$V];SsaOp::Input($I,$A.try_into().unwrap())}", bind=mi) is not None or t2.fmatch("Op::Input($V)=>SsaOp::Input($I,vars[$V].try_into().unwrap())", bind=mi) is not None or t2.fmatch("Op::Input($V)=>{SsaOp::Input($I,vars[$V].try_into().unwrap())}", bind=mi) is not None)))
     mo = t.fmatch("for($K,$R)inroots.iter().enumerate(){")
     ok_out = False
